@@ -973,6 +973,39 @@ class Ctx(object):
         self.events.append(msg)
 
 
+import contextlib
+
+
+@contextlib.contextmanager
+def _finite_predicates():
+    """numpy's isfinite/isnan/isinf have no loop for object arrays.  During a symbolic run they are wrapped:
+    a symbolic value is a finite real by the standing assumption (NaN/inf inputs are outside every claim), so
+    isfinite -> True, isnan/isinf -> False elementwise; plain numbers go to the real ufunc."""
+    real = {k: getattr(np, k) for k in ("isfinite", "isnan", "isinf")}
+
+    def mk(name, sym_val):
+        f = real[name]
+
+        def g(x, *a, **k):
+            if isinstance(x, Sym):
+                return sym_val
+            if isinstance(x, np.ndarray) and x.dtype == object:
+                out = np.empty(x.shape, dtype=bool)
+                for idx in np.ndindex(x.shape):
+                    v = x[idx]
+                    out[idx] = sym_val if isinstance(v, Sym) else bool(f(float(v)))
+                return out
+            if isinstance(x, (list, tuple)) and any(isinstance(v, Sym) for v in x):
+                return np.array([sym_val if isinstance(v, Sym) else bool(f(float(v))) for v in x])
+            return f(x, *a, **k)
+        return g
+    np.isfinite, np.isnan, np.isinf = mk("isfinite", True), mk("isnan", False), mk("isinf", False)
+    try:
+        yield
+    finally:
+        np.isfinite, np.isnan, np.isinf = real["isfinite"], real["isnan"], real["isinf"]
+
+
 class PathResult(object):
     def __init__(self, index, prefix, status, out, ctxobj, exc=None):
         self.index = index
@@ -1012,6 +1045,10 @@ class Explorer(object):
         """harness(ctx) -> anything.  Exceptions raised by the code under test are
         recorded as path results with status 'exception' (the harness decides
         whether that is a violation by catching them itself)."""
+        with _finite_predicates():
+            return self._run(harness)
+
+    def _run(self, harness):
         global _CTX
         stack = [[]]
         t_start = time.time()
@@ -1194,6 +1231,8 @@ def close(a, b, ctxobj, tol=None):
     a, b = float(a), float(b)
     if a == b:          # also equal infinities
         return True
+    if not (math.isfinite(a) and math.isfinite(b)):
+        return False    # inf vs finite, NaN: never "close" (inf <= tol*inf would be True)
     return abs(a - b) <= tol * (1.0 + max(abs(a), abs(b)))
 
 
